@@ -91,7 +91,6 @@ def _mkb(t):
 
 class SBool:
     __slots__ = ('z',)
-    __array_priority__ = 1000
 
     def __init__(self, z_):
         self.z = z_
@@ -146,7 +145,6 @@ class SBool:
 class SNum:
     """symbolic number (z3 Int or Real term)"""
     __slots__ = ('z',)
-    __array_priority__ = 1000
 
     def __init__(self, z_):
         self.z = z_
